@@ -346,6 +346,7 @@ func CheckC16(e *Env) int {
 			rep.Sample(map[string]interface{}{"program": p.ID, "features": p.Feat, "runs_byte_identical": names, "bytes": len(ref.Out)})
 		}
 	})
+	runFirstMention(e, rep, &mu)
 	return rep.Finish(t0)
 }
 
@@ -357,4 +358,81 @@ func firstDiff(a, b string) string {
 		}
 	}
 	return fmt.Sprintf("length differs: %d vs %d lines", len(la), len(lb))
+}
+
+// firstMentionPrograms: small programs in which several packages of ONE name are first met
+// inside a single expression or declaration (a wire.Value mentioning two of them, a struct
+// provider with fields from three): whatever decides which of them gets the plain import name
+// has nothing but wire's own data structures to go by.
+func firstMentionPrograms() []*Program {
+	var out []*Program
+	mk := func(id string, npk int, decl, build, result string) {
+		p := &Program{ID: id, Module: ModulePath, Extra: map[string]string{}, Feat: map[string]string{"shape": "first-mention"}, RawDriver: true, Note: "determinism-first-mention"}
+		p.Pkgs = []*Pkg{{Name: "app", Dir: "app"}}
+		imports := ""
+		for k := 1; k <= npk; k++ {
+			dir := fmt.Sprintf("p%c/cfg", 'a'+k-1)
+			p.Pkgs = append(p.Pkgs, &Pkg{Name: "cfg", Dir: dir})
+			p.Extra[fmt.Sprintf("%d/cfg.go", k)] = fmt.Sprintf("package cfg\n\ntype Key string\n\ntype Conf struct{ N int }\n\nvar Default = Key(\"k%d\")\n\nfunc New() Conf { return Conf{N: %d} }\n", k, k)
+			imports += fmt.Sprintf("\tc%d \"%s\"\n", k, p.ImportPath(k))
+		}
+		p.Extra["0/decl.go"] = "package app\n\nimport (\n" + imports + ")\n\n" + decl
+		p.Extra["0/wire.go"] = "//go:build wireinject\n// +build wireinject\n\npackage app\n\nimport (\n\t\"github.com/google/wire\"\n" + imports + ")\n\nfunc Init() " + result + " {\n\tpanic(wire.Build(" + build + "))\n}\n"
+		p.Extra["0/zz_driver.go"] = "//go:build !wireinject\n// +build !wireinject\n\npackage app\n\nfunc Scenarios() {}\n"
+		out = append(out, p)
+	}
+	mk("fm_value2", 2, "type Table map[c1.Key]c2.Key\n\ntype App struct{ T Table }\n\nfunc NewApp(t Table) App { return App{T: t} }\n",
+		"NewApp, wire.Value(Table{c1.Default: c2.Default})", "App")
+	mk("fm_value3", 3, "type Row struct {\n\tA c1.Key\n\tB c2.Key\n\tC c3.Key\n}\n\ntype App struct{ R Row }\n\nfunc NewApp(r Row) App { return App{R: r} }\n",
+		"NewApp, wire.Value(Row{A: c1.Default, B: c2.Default, C: c3.Default})", "App")
+	mk("fm_struct3", 3, "type App struct {\n\tA c1.Conf\n\tB c2.Conf\n\tC c3.Conf\n}\n",
+		"c3.New, c1.New, c2.New, wire.Struct(new(App), \"*\")", "App")
+	mk("fm_ifacevalue2", 2, "type Pair struct {\n\tA c1.Key\n\tB c2.Key\n}\n\ntype Any interface{}\n\ntype App struct{ V Any }\n\nfunc NewApp(v Any) App { return App{V: v} }\n",
+		"NewApp, wire.InterfaceValue(new(Any), Pair{B: c2.Default, A: c1.Default})", "App")
+	return out
+}
+
+// runFirstMention generates each program many times in fresh processes.
+func runFirstMention(e *Env, rep *Report, mu *sync.Mutex) {
+	progs := firstMentionPrograms()
+	repeats := e.tierN(16, 40)
+	e.ParallelDo(len(progs), func(i int) {
+		p := progs[i]
+		root := filepath.Join(e.Scratch, "c16fm", p.ID)
+		os.MkdirAll(root, 0o755)
+		defer os.RemoveAll(root)
+		prepareModule(e, root, []*Program{p})
+		out := filepath.Join(root, p.ID, "app", "wire_gen.go")
+		var ref []byte
+		for k := 0; k < repeats; k++ {
+			os.Remove(out)
+			res := e.Wire(root, nil, "gen", "./"+p.ID+"/app")
+			b, err := os.ReadFile(out)
+			mu.Lock()
+			switch {
+			case res.TimedOut:
+				rep.Incon = append(rep.Incon, p.ID+": watchdog")
+			case res.Exit != 0 || err != nil:
+				rep.Incon = append(rep.Incon, fmt.Sprintf("harness: %s not generated: exit %d %s", p.ID, res.Exit, tail(res.Stderr, 300)))
+			case ref == nil:
+				ref = b
+			case string(b) != string(ref):
+				files := p.Files(false)
+				files[p.ID+"/app/wire_gen.go.run0"] = string(ref)
+				files[p.ID+"/app/wire_gen.go.run"+fmt.Sprint(k)] = string(b)
+				rep.Violate(p.ID, Issue{Prop: "C16", Clause: fmt.Sprintf("wire_gen.go differs between runs module/repeat0 and module/repeat%d", k), Witness: firstDiff(string(ref), string(b)), Sig: "C16:differs:first-mention"}, files, nil)
+				mu.Unlock()
+				return
+			default:
+				rep.Count("runs_compared", 1)
+			}
+			mu.Unlock()
+			if res.Exit != 0 || err != nil || res.TimedOut {
+				return
+			}
+		}
+		mu.Lock()
+		rep.Held("first-mention/" + p.ID)
+		mu.Unlock()
+	})
 }
